@@ -14,11 +14,17 @@ Inductive case :=
 Inductive obs :=
 | FCObs (rets : list (Z * Z)) (connFinal : list Z) (streamsFinal : list (list Z * bool)).
 
+(** The harness does not observe HOW a controller remembers where it last reported "blocked"
+    (slot 2 of the counter dump is always 0 there): the observable is the sequence of
+    IsNewlyBlocked results, and every case ends with a probe of all controllers. *)
+Definition mask_lb (l : list Z) : list Z :=
+  match l with a :: b :: _ :: r => a :: b :: 0 :: r | _ => l end.
+
 Definition model_obs (c : case) : obs :=
   match c with
   | FC cw cmax ops _ _ _ =>
     let '(s, rs) := run (init_sys cw cmax) ops in
-    FCObs rs (dump_base (conn s)) (map (fun st => (dump_base (sb st), finalRecv st)) (streams s))
+    FCObs rs (mask_lb (dump_base (conn s))) (map (fun st => (mask_lb (dump_base (sb st)), finalRecv st)) (streams s))
   end.
 
 Fixpoint zlist_eqb (a b : list Z) : bool :=
